@@ -1,6 +1,6 @@
 SPECIFICATION Spec
 CONSTANTS
-  LockedSteps = {} Transport = "legacy"
+  LockedSteps = {} Transport = "legacy" ClosesReplaced = TRUE
 INVARIANTS NothingBeforeTheEnd GaugeNeverNegative
 PROPERTIES EndingReleasesEverything ReleasedIsStable
 CHECK_DEADLOCK FALSE
